@@ -35,6 +35,8 @@ pub enum N {
     For(usize, Vec<String>, bool, Vec<N>),
     /// <for> over a list that mixes numbers and quoted strings; the body only shows the item
     ForMixed(usize, Vec<String>),
+    /// a loop whose body is a <use> of the element the previous pass made: a chain as long as the count
+    UseChain(usize, u8),
     /// if with a test of known truth; form 0 literal, 1 comparison function on a constant, 2 expression in braces
     If(bool, u8, Vec<N>),
     Group(Vec<N>),
@@ -64,6 +66,7 @@ fn node(depth: u32) -> BoxedStrategy<N> {
             4 => (form, vec(inner.clone(), 1..4)).prop_map(|(f, b)| N::Loop(0, f, b)),
             2 => (vec(prop_oneof![Just("1"), Just("2"), Just("5"), Just("-3"), Just("0.5"), Just("10")], 1..5), any::<bool>(), vec(inner.clone(), 1..4)).prop_map(|(items, idx, b)| N::For(0, items.into_iter().map(|s| s.to_string()).collect(), idx, b)),
             2 => (any::<bool>(), 0u8..5, vec(inner.clone(), 1..4)).prop_map(|(t, f, b)| N::If(t, f, b)),
+            1 => (2u8..6).prop_map(|n| N::UseChain(0, n)),
             1 => vec(prop_oneof![Just("1"), Just("'two'"), Just("3.5"), Just("'x'"), Just("-4"), Just("'de luxe'")], 1..5).prop_map(|items| N::ForMixed(0, items.into_iter().map(|s| s.to_string()).collect())),
             1 => vec(inner.clone(), 1..4).prop_map(N::Group),
         ]
@@ -79,7 +82,7 @@ fn number(prog: &mut [N], next: &mut usize) {
                 *next += 1;
                 number(b, next);
             }
-            N::ForMixed(id, _) => {
+            N::ForMixed(id, _) | N::UseChain(id, _) => {
                 *id = *next;
                 *next += 1;
             }
@@ -158,6 +161,19 @@ fn render(prog: &[N], unroll: bool, vars: &mut Vec<String>, out: &mut Vec<X>) {
                     let mut e = XEl::new("if").a("test", test);
                     render(b, unroll, vars, &mut e.kids);
                     out.push(X::El(e));
+                }
+            }
+            N::UseChain(id, n) => {
+                let var = format!("uc{id}");
+                out.push(X::El(XEl::new("rect").a("id", format!("ch{id}x0")).a("xy", "70 70").a("wh", "2")));
+                let link = |i: String, prev: String| XEl::new("use").a("id", format!("ch{id}x{i}")).a("href", format!("#ch{id}x{prev}")).a("x", "3").a("y", "1");
+                if unroll {
+                    for k in 1..=*n {
+                        out.push(X::El(XEl::new("var").a(&var, format!("{k}"))));
+                        out.push(X::El(link(format!("${{{var}}}"), format!("{{{{${var} - 1}}}}"))));
+                    }
+                } else {
+                    out.push(X::El(XEl::new("loop").a("count", format!("{n}")).a("loop-var", var.clone()).a("start", "1").kid(link(format!("${{{var}}}"), format!("{{{{${var} - 1}}}}")))));
                 }
             }
             N::ForMixed(id, items) => {
@@ -380,6 +396,10 @@ fn stats(prog: &[N]) -> (usize, bool) {
             }
             N::ForMixed(_, items) => {
                 it = it.max(items.len());
+                dep = true;
+            }
+            N::UseChain(_, n) => {
+                it = it.max(*n as usize);
                 dep = true;
             }
             N::For(_, items, _, b) => {
